@@ -71,7 +71,7 @@ def step? : List String → Option String
     | some cls => if ch = "0" || cls != "leaky" || (guardOnlyLeaky obj).contains f then "ok" else "inconsistent memo-not-stationary"
   | ["fact-codec-params-changed", ty, ch] =>
     some <| if !Gen.Facts.codecTypes.contains ty then "inconsistent unknown-type"
-      else if ch = "0" || Gen.Facts.codecParameterStores.any (fun s => s.1 = ty && s.2.2 != "Validate") then "ok"
+      else if ch = "0" || Gen.Facts.codecParameterStores.any (fun s => s.1 = ty && s.2.2.1 != "Validate") then "ok"
       else "inconsistent"
   | ["fact-pkgvars", pkg] =>
     some ("ok " ++ ",".intercalate ((Gen.Facts.pkgVars.filter (fun v => v.1 = pkg && v.2.2.2 && v.2.1 != "_")).map (·.2.1)))
